@@ -29,7 +29,7 @@ ASSUMPTIONS = [
     "IEEE rounding within the stated tolerances",
 ]
 
-KINDS = ["geom", "canon", "cartan", "vinberg", "diag", "hyp", "canondiag"]
+KINDS = ["geom", "canon", "cartan", "cartan", "vinberg", "diag", "hyp", "canondiag"]
 
 
 # ------------------------------------------------------------------------------------------------
@@ -59,12 +59,32 @@ def _scaled_cartan(B, dvec):
     return [[2 * B[i][j] * dvec[i] / dvec[j] for j in range(n)] for i in range(n)]
 
 
+# degenerate (affine / infinite-dihedral) cosine forms: no diagonalising change of basis exists.  diagonalize=True must
+# not silently return matrices that violate the relations: the only acceptable outcomes are a GeometryError or matrices
+# that do satisfy the clauses.
+DEGENERATE = [X.sym_matrix(2, [0]), X.sym_matrix(3, [3, 3, 3]), X.sym_matrix(3, [2, 4, 4]), X.sym_matrix(3, [2, 3, 6]),
+              X.sym_matrix(3, [2, 2, 0]), X.sym_matrix(3, [2, 0, 0]), X.sym_matrix(4, [3, 2, 3, 3, 2, 3]),
+              X.sym_matrix(4, [4, 2, 2, 3, 2, 4]), X.sym_matrix(4, [2, 2, 0, 2, 2, 2])]
+
+
+def _degenerate(rng):
+    M = rng.choice(DEGENERATE)
+    n = len(M)
+    p = list(range(n))
+    rng.shuffle(p)
+    return [[(rng.choice(X.INF) if M[p[i]][p[j]] <= 0 else M[p[i]][p[j]]) if i < j else 0 for j in range(n)] for i in range(n)]
+
+
 def gen_case(rng, kinds=KINDS, ranks=(2, 3, 3, 4, 4, 5), finite=(2, 12)):
     HYP_RANKS = (3, 3, 4, 4, 5)
     """one group + one representation kind, mostly valid"""
     while True:
         kind = rng.choice(kinds)
         n = rng.choice(HYP_RANKS if kind == "hyp" else ranks)
+        if kind in ("diag", "canondiag", "hyp") and rng.random() < 0.12:
+            U = _degenerate(rng)
+            M = [[1 if i == j else (U[i][j] if i < j else U[j][i]) for j in range(len(U))] for i in range(len(U))]
+            return {"kind": kind, "spec": X.rand_spec(rng, M), "degenerate": True}
         if kind == "hyp":
             # need signature (n-1, 1), non-degenerate
             for _ in range(200):
@@ -87,7 +107,18 @@ def gen_case(rng, kinds=KINDS, ranks=(2, 3, 3, 4, 4, 5), finite=(2, 12)):
         inp = {"kind": kind, "spec": spec}
         Mx, names = X.expected_matrix_and_names(spec)
         if kind == "cartan":
+            # a genuinely non-symmetric Cartan matrix with the right products C_ij C_ji = 4cos^2(pi/m) at the finite labels:
+            # a diagonal rescaling D (2B) D^-1 of the cosine Cartan matrix, or the classical integer Cartan matrix
             inp["dvec"] = [Q.qs(F(rng.randint(1, 6), rng.randint(1, 4))) for _ in range(n)]
+            inp["rename"] = rng.choice([None, None, "alpha", "alphanum"])
+            inp["cdiag"] = rng.random() < 0.5          # cartan_representation(C, diagonalize=True)
+            if rng.random() < 0.3:
+                name, Mi, Ci = rng.choice(INTEGER_CARTAN)
+                inp["spec"] = X.rand_spec(rng, Mi) if rng.random() < 0.5 else {"route": "matrix", "M": Mi, "style": "alpha"}
+                if inp["spec"]["route"] == "diagram":
+                    o = inp["spec"]["order"]
+                    Ci = [[Ci[i][j] for j in o] for i in o]
+                inp["intC"] = Ci
         if kind == "vinberg":
             par = []
             for i in range(n):
@@ -100,6 +131,24 @@ def gen_case(rng, kinds=KINDS, ranks=(2, 3, 3, 4, 4, 5), finite=(2, 12)):
 
 
 HYP_TRIPLES = X.hyperbolic_triples(12)
+# classical non-simply-laced integer Cartan matrices (name, Coxeter matrix, Cartan matrix)
+INTEGER_CARTAN = [
+    ("B2", [[1, 4], [4, 1]], [[2, -2], [-1, 2]]),
+    ("G2", [[1, 6], [6, 1]], [[2, -1], [-3, 2]]),
+    ("B3", [[1, 3, 2], [3, 1, 4], [2, 4, 1]], [[2, -1, 0], [-1, 2, -2], [0, -1, 2]]),
+    ("C3", [[1, 3, 2], [3, 1, 4], [2, 4, 1]], [[2, -1, 0], [-1, 2, -1], [0, -2, 2]]),
+    ("F4", [[1, 3, 2, 2], [3, 1, 4, 2], [2, 4, 1, 3], [2, 2, 3, 1]],
+     [[2, -1, 0, 0], [-1, 2, -2, 0], [0, -1, 2, -1], [0, 0, -1, 2]]),
+    ("A2", [[1, 3], [3, 1]], [[2, -1], [-1, 2]]),
+]
+
+
+def rep_names(inp):
+    """(Coxeter matrix, generator names of the representation) prescribed by the input"""
+    Mx, names = X.expected_matrix_and_names(inp["spec"])
+    if inp.get("rename"):
+        names = ["abcdefghijklmnopqrstuvwxyz"[i] if inp["rename"] == "alpha" else "s%d" % i for i in range(len(Mx))]
+    return Mx, names
 
 
 def build_rep(inp):
@@ -115,9 +164,14 @@ def build_rep(inp):
     elif kind == "cartan":
         B = G.bilinear_form()
         d = [float(F(x)) for x in inp["dvec"]]
-        C = np.array(_scaled_cartan(B.tolist(), d))
+        C = np.array(inp["intC"], dtype=float) if "intC" in inp else np.array(_scaled_cartan(B.tolist(), d))
         extra["C"] = C
-        rep = G.cartan_representation(C)
+        kw = {"rename_generators": True, "generator_style": inp["rename"]} if inp.get("rename") else {}
+        if inp.get("cdiag"):
+            rep = _with_recording(lambda: G.cartan_representation(C.copy(), diagonalize=True, **kw))
+            extra["WW"] = _REC.get("last")
+        else:
+            rep = G.cartan_representation(C.copy(), **kw)
     elif kind == "vinberg":
         n = len(names)
         if inp["pformat"] == "dict":
@@ -139,13 +193,20 @@ def build_rep(inp):
     else:
         raise ValueError(kind)
     # generators are looked up by the names the *input* prescribes (not by the library's own bookkeeping)
-    _, xnames = X.expected_matrix_and_names(inp["spec"])
+    _, xnames = rep_names(inp)
     gens = [np.asarray(rep.generators[g], dtype=float) for g in xnames]
     return G, names, rep, gens, extra
 
 
 def run_gens(inp):
-    G, names, rep, gens, extra = build_rep(inp)
+    try:
+        G, names, rep, gens, extra = build_rep(inp)
+    except Exception as e:
+        if type(e).__name__ == "GeometryError" and _REC.get("last") and (inp["kind"] in ("diag", "hyp", "canondiag") or inp.get("cdiag")):
+            # the repaired guard refused: hand the diagonalising pair to the model, which must refuse too
+            (W, Winv), order = _REC["last"]
+            return {"exc": "GeometryError", "W": np.asarray(W).tolist(), "Winv": np.asarray(Winv).tolist()}
+        raise
     out = {"M": np.asarray(G.coxeter_matrix).tolist(), "names": names,
            "B": np.asarray(G.bilinear_form(), dtype=float).tolist(),
            "gens": [g.tolist() for g in gens],
@@ -162,8 +223,32 @@ def _form_fields(M):
     return {"M": M, "cos": X.table_json(X.cos_table(M))}
 
 
-def lean_gens(inp, obs):
+def may_refuse(inp):
+    """inputs on which `diagonalize=True` may legitimately refuse with GeometryError: degenerate cosine forms, and
+    non-symmetric Cartan matrices (the library diagonalises the lower-triangle mirror, which can be degenerate)"""
+    return bool(inp.get("degenerate")) or (inp["kind"] == "cartan" and inp.get("cdiag"))
+
+
+def _degenerate_verdict(inp, obs, tags):
+    """for a degenerate form and diagonalize=True: ("skip", None) when the library refused with GeometryError,
+    ("fail", failure) for any other exception, ("check", None) when it returned matrices"""
     if "exc" in obs:
+        if obs["exc"] == "GeometryError":
+            return "skip", None
+        return "fail", {"expected": "GeometryError (degenerate form) or a representation", "observed": obs,
+                        "tags": {**tags, "exc": obs["exc"], "degenerate": True}, "property_failure": True}
+    return "check", None
+
+
+def lean_gens(inp, obs):
+    if obs.get("exc") == "GeometryError" and "W" in obs:
+        Mx, _ = X.expected_matrix_and_names(inp["spec"])
+        if inp["kind"] == "cartan":
+            return [{"op": "c08.gens", "kind": "cartanhyp", "n": len(Mx), "C": [["2" if i == j else "0" for j in range(len(Mx))] for i in range(len(Mx))],
+                     "W": X.mat_json(obs["W"]), "Winv": X.mat_json(obs["Winv"])}]
+        return [{"op": "c08.gens", "kind": "hyp", "n": len(Mx), "W": X.mat_json(obs["W"]), "Winv": X.mat_json(obs["Winv"]),
+                 **_form_fields(Mx)}]
+    if "exc" in obs or inp.get("degenerate"):
         return []
     Mx, names = X.expected_matrix_and_names(inp["spec"])
     n = len(Mx)
@@ -173,7 +258,12 @@ def lean_gens(inp, obs):
     if kind in ("geom", "canon"):
         ops.append({"op": "c08.gens", "kind": kind, **base})
     elif kind == "cartan":
-        ops.append({"op": "c08.gens", "kind": "cartan", "n": n, "C": X.mat_json(obs["C"])})
+        if inp.get("cdiag"):
+            if "W" in obs:
+                ops.append({"op": "c08.gens", "kind": "cartanhyp", "n": n, "C": X.mat_json(obs["C"]),
+                            "W": X.mat_json(obs["W"]), "Winv": X.mat_json(obs["Winv"])})
+        else:
+            ops.append({"op": "c08.gens", "kind": "cartan", "n": n, "C": X.mat_json(obs["C"])})
     elif kind == "vinberg":
         P = [["0"] * n for _ in range(n)]
         for i, j, v in inp["params"]:
@@ -204,14 +294,22 @@ def _exp_keys(names):
 
 def judge_gens(inp, obs, lr):
     tags = {"kind": inp["kind"], "route": inp["spec"]["route"]}
+    if obs.get("exc") == "GeometryError" and "W" in obs:
+        # the guard Winv W = 1 (atol 1e-10) of the repaired code vs the model's diagGuard on the same pair
+        if not lr or lr[0].get("err") != "GeometryError":
+            return {"expected": {"model": lr[0] if lr else None}, "observed": "GeometryError raised by cartan_representation",
+                    "tags": {**tags, "what": "diag-guard"}}
+        return None
+    if inp.get("degenerate"):
+        return _degenerate_verdict(inp, obs, tags)[1]      # the relations oracle judges returned matrices
     if "exc" in obs:
         return {"expected": "a representation", "observed": obs, "tags": {**tags, "exc": obs["exc"]}, "property_failure": True}
     Mx, names = X.expected_matrix_and_names(inp["spec"])
     if obs["M"] != Mx or obs["names"] != names:
         return {"expected": {"M": Mx, "names": names}, "observed": {"M": obs["M"], "names": obs["names"]},
                 "tags": {**tags, "constructor": True}}
-    if obs["keys"] != _exp_keys(names):
-        return {"expected": _exp_keys(names), "observed": obs["keys"], "tags": {**tags, "generator_names": True}}
+    if obs["keys"] != _exp_keys(rep_names(inp)[1]):
+        return {"expected": _exp_keys(rep_names(inp)[1]), "observed": obs["keys"], "tags": {**tags, "generator_names": True}}
     for r in lr:
         if "err" in r:
             return {"expected": "model answer", "observed": r, "tags": {**tags, "driver_err": r["err"][:60]}}
@@ -250,7 +348,7 @@ def run_words(inp):
     G, names, rep, gens, extra = build_rep(inp)
     vals = []
     for w in inp["words"]:
-        v = X.rep_word(rep, names, w)
+        v = X.rep_word(rep, rep_names(inp)[1], w)
         if hasattr(v, "matrix"):     # HyperbolicRepresentation wraps into an Isometry (row-vector convention inside)
             v = np.asarray(v.matrix).swapaxes(-1, -2)
         vals.append(np.asarray(v, dtype=float).tolist())
@@ -267,6 +365,8 @@ def lean_words(inp, obs):
 
 def judge_words(inp, obs, lr):
     tags = {"kind": inp["kind"]}
+    if may_refuse(inp) and "exc" in obs:
+        return _degenerate_verdict(inp, obs, tags)[1]
     if "exc" in obs:
         return {"expected": "word values", "observed": obs, "tags": {**tags, "exc": obs["exc"]}, "property_failure": True}
     for w, v, r in zip(inp["words"], obs["vals"], lr):
@@ -307,16 +407,20 @@ def run_rel(inp):
                     order = r if order is None else min(order, r)
                 else:
                     braid = max(braid, r)
+    # the inverse generator the Representation stores next to each generator (upper-case name) must be its inverse
+    xn = rep_names(inp)[1]
+    invres = max(float(np.max(np.abs(np.asarray(rep.generators[g.upper()], dtype=float) @ gens[i] - np.eye(n))))
+                 for i, g in enumerate(xn))
     dets = [float(np.linalg.det(g)) for g in gens]
     # each generator fixes a hyperplane pointwise: g - 1 has rank one
     sv = [np.linalg.svd(g - np.eye(n), compute_uv=False) for g in gens]
     rank1 = max(float(s[1] / s[0]) if len(s) > 1 else 0.0 for s in sv)
     return {"M": M.tolist(), "gens": [g.tolist() for g in gens], "invol": inv, "braid": braid, "order": order,
-            "scale": scale, "dets": dets, "rank1": rank1}
+            "scale": scale, "dets": dets, "rank1": rank1, "invres": invres}
 
 
 def lean_rel(inp, obs):
-    if "exc" in obs:
+    if "exc" in obs or inp.get("degenerate"):
         return []
     n = len(obs["gens"])
     return [{"op": "c08.resid", "n": n, "M": obs["M"], "gens": [X.mat_json(g) for g in obs["gens"]]}]
@@ -325,6 +429,20 @@ def lean_rel(inp, obs):
 def judge_rel(inp, obs, lr):
     kind = inp["kind"]
     tags = {"kind": kind}
+    if may_refuse(inp) and "exc" in obs:
+        return _degenerate_verdict(inp, obs, tags)[1]
+    if inp.get("degenerate"):
+        what, fail = _degenerate_verdict(inp, obs, tags)
+        if what != "check":
+            return fail
+        # matrices were returned for a form that cannot be diagonalised: they must still satisfy the clauses
+        # (loose tolerance: the conjugation is ill conditioned)
+        tol = 1e-6 * obs["scale"] ** 2
+        if obs["invol"] > tol or obs["braid"] > tol or any(abs(d + 1) > 1e-5 for d in obs["dets"]):
+            return {"expected": "diagonalize=True on a degenerate cosine form: GeometryError, or matrices that satisfy s^2 = 1 and "
+                                "(s_i s_j)^m = 1", "observed": {"|s^2-1|": obs["invol"], "|(s_i s_j)^m-1|": obs["braid"], "dets": obs["dets"]},
+                    "tags": {**tags, "degenerate": True, "relation": "involution"}}
+        return None
     if "exc" in obs:
         return {"expected": "a representation", "observed": obs, "tags": {**tags, "exc": obs["exc"]}}
     if not lr or "err" in lr[0]:
@@ -339,6 +457,9 @@ def judge_rel(inp, obs, lr):
     if max(obs["braid"], ebr) > tol:
         return {"expected": "(s_i s_j)^m = 1 for every finite label m", "observed": {"numpy": obs["braid"], "exact": ebr},
                 "tags": {**tags, "relation": "braid"}}
+    if obs["invres"] > tol:
+        return {"expected": "rep.generators[G] (inverse generator) * rep.generators[g] = 1", "observed": obs["invres"],
+                "tags": {**tags, "relation": "inverse-generator"}}
     if kind in ("canon", "canondiag") and eord is not None and min(eord, obs["order"]) < 0.05:
         return {"expected": "s_i s_j has order exactly m in the canonical representation",
                 "observed": {"min_k<m |P^k-1|": eord}, "tags": {**tags, "relation": "order"}}
@@ -448,6 +569,8 @@ def run_hyp(inp):
 
 
 def judge_hyp(inp, obs, lr):
+    if inp.get("degenerate"):
+        return _degenerate_verdict(inp, obs, {"kind": "hyp"})[1]     # O(d,1) is claimed for signature (d,1) only
     if "exc" in obs:
         return {"expected": "hyperbolic representation", "observed": obs, "tags": {"exc": obs["exc"]}}
     if obs["iso"] > 1e-8:
@@ -530,6 +653,152 @@ def judge_tri(inp, obs, lr):
     return None
 
 
+# ---- histories: several requests on ONE group object, inputs mutated by the caller after construction ----------
+HKINDS = ["geom", "canon", "diag", "canondiag", "hyp", "cartan"]
+
+
+def gen_hist(rng, n):
+    for _ in range(n):
+        rank = rng.choice([2, 3, 3, 3, 4])
+        fam = []
+        base = X.rand_matrix(rng, rank, finite=(2, 9), p_inf=0.15, p_two=0.3)
+        for _m in range(rng.choice([2, 3, 4])):
+            if rng.random() < 0.6 and fam:
+                # scan a family: change one label of the previous member
+                M = [row[:] for row in fam[-1]["M"]]
+                i, j = rng.sample(range(rank), 2)
+                M[i][j] = M[j][i] = rng.choice([2, 3, 4, 5, 6, 7, 8, 0, -1])
+            else:
+                M = X.rand_matrix(rng, rank, finite=(2, 9), p_inf=0.15, p_two=0.3) if fam else base
+            calls = [rng.choice(HKINDS) for _ in range(rng.choice([2, 3, 4]))]
+            fam.append({"M": M, "route": rng.choice(["buffer", "buffer", "list", "diagram", "fresh"]),
+                        "style": rng.choice(["alpha", "alphanum"]), "calls": calls})
+        yield {"rank": rank, "family": fam, "scribble": rng.choice([2, 5, 0])}
+
+
+def _check_rep(kind, gens, M, B, sig):
+    """residuals of one representation against the labels M the group was built from"""
+    n = len(M)
+    I = np.eye(n)
+    scale = 1.0
+    inv = max(float(np.max(np.abs(g @ g - I))) for g in gens)
+    braid, order = 0.0, None
+    for i in range(n):
+        for j in range(i + 1, n):
+            m = M[i][j]
+            if m < 2:
+                continue
+            P = gens[i] @ gens[j]
+            acc = I.copy()
+            for k in range(1, m + 1):
+                acc = acc @ P
+                scale = max(scale, float(np.max(np.abs(acc))))
+                r = float(np.max(np.abs(acc - I)))
+                if k < m:
+                    order = r if order is None else min(order, r)
+                else:
+                    braid = max(braid, r)
+    out = {"kind": kind, "invol": inv, "braid": braid, "order": order, "scale": scale, "form": 0.0}
+    if kind == "geom":
+        out["form"] = max(float(np.max(np.abs(g.T @ B @ g - B))) for g in gens)
+    if kind in ("diag", "hyp") and sig is not None:
+        J = np.diag(sig)
+        out["form"] = max(float(np.max(np.abs(g.T @ J @ g - J))) for g in gens)
+    return out
+
+
+def run_hist(inp):
+    from geometry_tools import coxeter
+    rank = inp["rank"]
+    work = np.ones((rank, rank), dtype=int)          # the caller's work buffer, edited in place
+    groups, keep = [], []
+    for mem in inp["family"]:
+        M = mem["M"]
+        if mem["route"] == "buffer":
+            work[...] = np.array(M)
+            G = coxeter.CoxeterGroup(matrix=work, generator_style=mem["style"])
+            names = None
+        elif mem["route"] == "list":
+            L = [row[:] for row in M]
+            keep.append(L)
+            G = coxeter.CoxeterGroup(matrix=L, generator_style=mem["style"])
+            names = None
+        elif mem["route"] == "diagram":
+            nm = "abcdefgh"[:rank]
+            D = [[nm[i], nm[j], M[i][j]] for i in range(rank) for j in range(i + 1, rank)]
+            keep.append(D)
+            G = coxeter.CoxeterGroup(diagram=D)
+            names = list(nm) if rank > 1 else None
+        else:
+            G = coxeter.CoxeterGroup(matrix=np.array(M), generator_style=mem["style"])
+            names = None
+        if names is None:
+            names = ["abcdefgh"[i] if mem["style"] == "alpha" else "s%d" % i for i in range(rank)]
+        groups.append((G, names))
+    # the caller goes on using its buffers / lists
+    work[...] = 1
+    for i in range(rank):
+        for j in range(i + 1, rank):
+            work[i, j] = work[j, i] = inp["scribble"]
+    for obj in keep:
+        for row in obj:
+            row[-1] = inp["scribble"]
+    res = []
+    for (G, names), mem in zip(groups, inp["family"]):
+        M = mem["M"]
+        B = np.array([[-math.cos(math.pi / m) if m > 0 else -1.0 for m in row] for row in M])
+        p, neg, z, mn = X.signature(M)
+        nondeg = z == 0 and mn >= 0.02
+        sig = [-1.0] * neg + [1.0] * p if nondeg else None
+        got = {}
+        for kind in mem["calls"]:
+            if kind in ("diag", "canondiag") and not nondeg:
+                continue
+            if kind == "hyp" and not (nondeg and neg == 1):
+                continue
+            if kind == "geom":
+                rep = G.geometric_representation()
+            elif kind == "canon":
+                rep = G.canonical_representation()
+            elif kind == "diag":
+                rep = G.geometric_representation(diagonalize=True)
+            elif kind == "canondiag":
+                rep = G.canonical_representation(diagonalize=True)
+            elif kind == "hyp":
+                rep = G.hyperbolic_rep()
+            else:
+                rep = G.cartan_representation(2 * B)
+            gens = [np.asarray(rep.generators[g], dtype=float) for g in names]
+            r = _check_rep(kind, gens, M, B, sig)
+            # duality between results obtained from the same object
+            if kind in ("canon", "canondiag"):
+                base = got.get("geom" if kind == "canon" else "diag")
+                if base is not None:
+                    r["dual"] = max(float(np.max(np.abs(c @ g.T - np.eye(len(M))))) for c, g in zip(gens, base))
+            got[kind] = gens
+            res.append({"member": M, **r})
+    return {"res": res}
+
+
+def judge_hist(inp, obs, lr):
+    if "exc" in obs:
+        return {"expected": "representations", "observed": obs, "tags": {"exc": obs["exc"]}}
+    for r in obs["res"]:
+        tol = 1e-8 * r["scale"] ** 2
+        tags = {"kind": r["kind"], "history": True}
+        if r["invol"] > tol or r["braid"] > tol:
+            return {"expected": "relations of the Coxeter matrix the group was constructed from (s^2 = 1, (s_i s_j)^m = 1)",
+                    "observed": r, "tags": {**tags, "relation": "braid"}}
+        if r["form"] > tol:
+            return {"expected": "form preserved (cosine form for geometric, diag(+-1) for diagonalised/hyperbolic)", "observed": r,
+                    "tags": {**tags, "relation": "form"}}
+        if r["kind"] in ("canon", "canondiag") and r["order"] is not None and r["order"] < 0.05:
+            return {"expected": "exact order m in the canonical representation", "observed": r, "tags": {**tags, "relation": "order"}}
+        if r.get("dual", 0.0) > tol:
+            return {"expected": "canonical = dual of geometric (same object, same diagonalize)", "observed": r, "tags": {**tags, "relation": "dual"}}
+    return None
+
+
 def gen_gens(rng, n):
     for _ in range(n):
         yield gen_case(rng)
@@ -549,6 +818,11 @@ CLAUSES = [
            site="coxeter.CoxeterGroup.*_representation", budget={"quick": 150, "thorough": 4000},
            what="involutions, (s_i s_j)^m = 1, exact order m (canonical), det -1 / rank(g-1)=1, for all six representation "
                 "kinds; numpy and exact Lean residuals on the implementation's matrices"),
+    Clause("history_oracle", "oracle", gen_hist, run_hist, judge_hist, site="coxeter.CoxeterGroup (histories)",
+           budget={"quick": 120, "thorough": 2500},
+           what="families of groups built through one work buffer / nested list / diagram list that the caller edits afterwards, "
+                "several representation requests in random order on each object (geometric, canonical, diagonalised, hyperbolic, "
+                "cartan): every result is checked against the labels the group was CONSTRUCTED from"),
     Clause("form_dual_oracle", "oracle", gen_formdual, run_formdual, judge_formdual,
            site="coxeter.CoxeterGroup.geometric_representation/canonical_representation", budget={"quick": 100, "thorough": 3000},
            what="g^T B g = B on generators and words; canonical[w] = inverse transpose of geometric[w]"),
